@@ -62,7 +62,12 @@ def h_positive(locus, tid, i, j, preset, polya=False):
             # apart from T's within delta may be reported in T's place
             twins = [u for u in gi.all_isoforms_exons if u != tid and readfam.chains_equal_within(exons, gi.all_isoforms_exons[u], d)]
             is_fl = AND(read[0][0] <= exons[0][0] + 10, read[-1][1] >= exons[-1][1] - 10)
-            g.check(IMPLIES(is_fl, tid in rep or any(u in rep for u in twins)), "the followed isoform is reported for a full-length read", detail=det)
+            def enddist(u):
+                ue = gi.all_isoforms_exons[u]
+                return abs(read[0][0] - ue[0][0]) + abs(read[-1][1] - ue[-1][1])
+            closer_twin = OR([enddist(u) <= enddist(tid) for u in twins if u in rep] or [False])
+            g.check(IMPLIES(is_fl, OR(tid in rep, closer_twin)), "the followed isoform is reported for a full-length read "
+                    "(only a delta-indistinguishable isoform whose ends are at least as close may be reported in its place)", detail=det)
         others = [u for u in gi.all_isoforms_exons if u != tid]
         only = AND([NOT(intron_chain_compatible(read, gi.all_isoforms_exons[u], d, tol)) for u in others]) if others else True
         g.check(IMPLIES(only, rep == [tid] and t in (RT.unique, RT.unique_minor_difference)),
@@ -90,12 +95,14 @@ def h_negative(locus, tid, kind, preset):
         elif kind == "retained_intron":
             read = [(exons[0][0], exons[1][1])] + exons[2:]
         elif kind == "flanking_exon_right":
-            # part of the last exon spliced to a novel exon far downstream of the isoform
+            # the last exon (ending at the annotated end, within delta) spliced to a novel exon far downstream of the isoform
             a = exons[-1][1] + s
-            read = [(exons[-1][0] + 20, exons[-1][1] - 50), (a, a + 150)]
+            j_ = g.int("end_jitter", -params.delta, params.delta)
+            read = [(exons[-1][0] + 20, exons[-1][1] + j_), (a, a + 150)]
         elif kind == "flanking_exon_left":
             a = exons[0][0] - s
-            read = [(a - 150, a), (exons[0][0] + 50, exons[0][1] - 20)]
+            j_ = g.int("start_jitter", -params.delta, params.delta)
+            read = [(a - 150, a), (exons[0][0] + j_, exons[0][1] - 20)]
         else:
             raise ValueError(kind)
         # the edit must stay inside the intron it modifies and create a structure that no isoform has
